@@ -28,6 +28,12 @@ def worst(a, b):
 
 
 class Freshness:
+    bottom = FRESH
+
+    @staticmethod
+    def lub(a, b):
+        return worst(a, b)
+
     def __init__(self, repo):
         self.repo = repo
         self.methods = {}
@@ -56,7 +62,7 @@ class Freshness:
         def join(a, b):
             r = {}
             for k in set(a) | set(b):
-                r[k] = worst(a[k], b[k]) if k in a and k in b else (a.get(k) or b.get(k))
+                r[k] = self.lub(a[k], b[k]) if k in a and k in b else (a.get(k) or b.get(k))
             return r
 
         def run(stmts, env):
@@ -83,10 +89,10 @@ class Freshness:
                     env = run(getattr(st, 'finalbody', []) or [], env)
                 elif isinstance(st, ast.Return) and st.value is not None:
                     v = self.expr(st.value, env, cls, params)
-                    out[0] = v if out[0] is None else worst(out[0], v)
+                    out[0] = v if out[0] is None else self.lub(out[0], v)
             return env
         run(fi.body, {})
-        return out[0] or FRESH
+        return out[0] or self.bottom
 
     def expr(self, e, env, cls, params):
         if isinstance(e, ast.Constant):
@@ -156,3 +162,71 @@ class Freshness:
         if isinstance(e, (ast.ListComp, ast.List, ast.Dict, ast.DictComp, ast.GeneratorExp)):
             return FRESH
         return OTHER
+
+
+WRITABLE, READONLY = 'writable', 'read-only'
+
+
+class Writability(Freshness):
+    """Can the array of the returned factor be written to?  `np.broadcast_to` returns a READ-ONLY view (also when the target shape equals
+    the source shape); views of it (transpose / moveaxis / squeeze / basic slices / .T) stay read-only, anything numpy allocates is
+    writable.  Same flow analysis and method summaries as Freshness, on the two-point lattice writable < read-only.  Unknown constructs
+    count as writable (this analysis only ever reports a definite broadcast view reaching a return)."""
+
+    def __init__(self, repo):
+        self.repo = repo
+        self.methods = {}
+        for name, fi in repo.nmethods(FACTOR, 'Factor').items():
+            self.methods[('Factor', name)] = fi
+        self.summary = {k: WRITABLE for k in self.methods}
+        for _ in range(20):
+            changed = False
+            for k, fi in self.methods.items():
+                v = self.of_method(k[0], fi)
+                if v == READONLY and self.summary[k] != READONLY:
+                    self.summary[k] = READONLY
+                    changed = True
+            if not changed:
+                break
+
+    bottom = WRITABLE
+
+    @staticmethod
+    def lub(a, b):
+        return READONLY if READONLY in (a, b) else WRITABLE
+
+    def expr(self, e, env, cls, params):
+        w = lambda a, b: READONLY if READONLY in (a, b) else WRITABLE
+        if isinstance(e, ast.Name):
+            return env.get(e.id, WRITABLE)
+        if isinstance(e, ast.IfExp):
+            return w(self.expr(e.body, env, cls, params), self.expr(e.orelse, env, cls, params))
+        if isinstance(e, ast.Attribute):
+            if e.attr in ('values', 'T'):
+                return self.expr(e.value, env, cls, params)
+            return WRITABLE
+        if isinstance(e, ast.Subscript):
+            idx = e.slice.elts if isinstance(e.slice, ast.Tuple) else [e.slice]
+            basic = all(isinstance(i, ast.Slice) or (isinstance(i, ast.Constant) and (i.value is None or i.value is Ellipsis or isinstance(i.value, int)))
+                        or U(i) == 'np.newaxis' for i in idx)
+            return self.expr(e.value, env, cls, params) if basic else WRITABLE
+        if isinstance(e, ast.Call):
+            f = e.func
+            last = U(f).split('.')[-1]
+            if last == 'Factor' and len(e.args) == 2:
+                return self.expr(e.args[1], env, cls, params)
+            if isinstance(f, ast.Attribute) and U(f.value) in ('np', 'numpy'):
+                if last == 'broadcast_to':
+                    return READONLY
+                if last in ('moveaxis', 'transpose', 'squeeze', 'swapaxes', 'expand_dims', 'asarray') and e.args:
+                    return self.expr(e.args[0], env, cls, params)
+                return WRITABLE
+            if isinstance(f, ast.Attribute):
+                if last in ('transpose', 'squeeze', 'swapaxes', 'view') and ('Factor', last) not in self.summary:
+                    return self.expr(f.value, env, cls, params)
+                if ('Factor', last) in self.summary and (U(f.value) == 'self' or last in ('transpose', 'project', 'expand', '_align')):
+                    return self.summary[('Factor', last)]
+                if ('Factor', last) in self.summary and self.summary[('Factor', last)] == READONLY and last.startswith('_'):
+                    return READONLY
+            return WRITABLE
+        return WRITABLE
